@@ -17,7 +17,7 @@ PROPERTY = 'C20'
 TOL = 1e-10
 
 META = {
-    'bounds': {'quick': 'ndarray vectors n<=2 in several comparisons; vector length n<=4; lists of <=3 design points', 'thorough': 'ndarray n<=3; n<=6; lists of <=4'},
+    'bounds': {'quick': 'n=8 (thorough 10); ids equal; ndarray vectors n<=2 in several comparisons; vector length n<=4; lists of <=3 design points', 'thorough': 'ndarray n<=3; n<=6; lists of <=4'},
     'stubs': ['hash() inside artap.individual -> uninterpreted function of the tuple elements when they are proxies '
               '(congruence decides "identical vectors => identical hashes"; a hash that looks at anything else yields distinct values)'],
     'assumptions': ['floats as reals: |a-b| < 1e-10 evaluated exactly; in doubles the subtraction rounds (relative 1e-16)',
